@@ -24,7 +24,7 @@ from .. import enc_expr as E
 from .. import gen_graph as G
 
 _TOOL = 4
-_state = {"installed": False, "lines": None, "topo": None, "rule2": None, "markers": {}}
+_state = {"installed": False, "lines": None, "topo": None, "rule2": None, "markers": {}, "pp": None}
 
 _ID_MARKERS = [
     ("return line_1(", "1"), ("identify(line_2(", "2"), ("identify(line_3(", "3"),
@@ -82,6 +82,25 @@ def install():
         return r
 
     id_c.rule_2_of_do_calculus_applies = r2
+
+    # p_parents(child, ordering, estimand): record, per call, the length of the ordering, the position of the
+    # child and whether the estimand is the carried one of line 7 (not a marginal of the observational joint).
+    # Calls on a carried estimand with a child that is NOT last are the ones whose numerator has to sum out the
+    # later variables (distribution tag only; nothing is changed in the behaviour).
+    orig_pp = getattr(id_std, "p_parents", None)
+    if orig_pp is not None:
+        def pp(child, ordering, estimand):
+            if _state["pp"] is not None:
+                try:
+                    obs_fn = getattr(id_std, "_is_observational_marginal", None)
+                    obs = bool(obs_fn(estimand)) if obs_fn is not None else None
+                    order = list(ordering)
+                    _state["pp"].append((len(order), order.index(child), obs))
+                except Exception:  # noqa: BLE001 - instrumentation must never change the outcome
+                    pass
+            return orig_pp(child, ordering, estimand)
+
+        id_std.p_parents = pp
     _state["installed"] = True
 
 
@@ -152,7 +171,7 @@ def run_identify(g, X, Y, *, via="identify", conditions=None, pref=None):
     Zs = None if conditions is None else {G.V(i) for i in conditions}
     g_before = snapshot_graph(graph)
     sets_before = (set(Xs), set(Ys), None if Zs is None else set(Zs))
-    _state["lines"], _state["topo"], _state["rule2"] = [], [], []
+    _state["lines"], _state["topo"], _state["rule2"], _state["pp"] = [], [], [], []
     res = {"expr": None, "exc": None, "exc_msg": None}
     ident = None
     q_before = None
@@ -176,8 +195,8 @@ def run_identify(g, X, Y, *, via="identify", conditions=None, pref=None):
         res["exc"] = type(e).__name__
         res["exc_msg"] = str(e)[:200]
     finally:
-        lines, tape, r2 = _state["lines"], _state["topo"], _state["rule2"]
-        _state["lines"], _state["topo"], _state["rule2"] = None, None, None
+        lines, tape, r2, pp = _state["lines"], _state["topo"], _state["rule2"], _state["pp"]
+        _state["lines"], _state["topo"], _state["rule2"], _state["pp"] = None, None, None, None
     mutated = None
     if snapshot_graph(graph) != g_before:
         mutated = "the caller's graph object was modified"
@@ -191,7 +210,7 @@ def run_identify(g, X, Y, *, via="identify", conditions=None, pref=None):
         out = ["err", "unidentifiable"]
     else:
         out = ["err", "other"]
-    res.update(out=out, lines=lines, tape=tape, rule2=r2, mutated=mutated)
+    res.update(out=out, lines=lines, tape=tape, rule2=r2, mutated=mutated, pp=pp)
     return res
 
 
@@ -218,6 +237,18 @@ def line_tags(lines):
     tags["seq_7_2_6"] = "726" in s
     tags["seq_7_then_7"] = any(a == "7" and "7" in lines[i + 1:i + 3] for i, a in enumerate(lines))
     return tags
+
+
+def pp_tags(pp):
+    """distribution tags from the recorded p_parents calls [(len(ordering), index of child, observational?)]:
+    `pp_carried_nonlast` = number of calls on a carried (line-7) estimand whose child is not last in the order,
+    i.e. whose conditional Σ_later Q / Σ_{child,later} Q has a non-trivial numerator sum"""
+    pp = pp or []
+    carried = [(n, i) for n, i, obs in pp if obs is False]
+    nonlast = [1 for n, i in carried if i < n - 1]
+    return {"pp_calls": min(len(pp), 9), "pp_carried": min(len(carried), 9),
+            "pp_carried_nonlast": min(len(nonlast), 9),
+            "pp_carried_nonlast_any": bool(nonlast)}
 
 
 # ------------------------------------------------------------------------------------------ generators
@@ -308,6 +339,203 @@ def mutate_seed(rng: random.Random, nmax=7):
     nodes = list(range(n))
     rng.shuffle(nodes)
     return {"nodes": nodes, "di": dil, "bi": bil}
+
+
+def napkin_family(rng: random.Random, nmax=7):
+    """structured generator for the deep paths of ID (line 7 followed by 6 / 2,6 / 7 on districts with several nodes):
+    napkin-like graphs  W -> R -> X -> Y1 -> ... -> Ym,  W <-> X,  W <-> Yj,  the outcomes Y1..Ym (m >= 2 mostly)
+    forming ONE district in which the first is not last in any topological order; optionally
+
+      * an outer napkin layer  W0 -> R0 -> W,  W0 <-> W,  W0 <-> R   (line 7, line 2, line 7 again: the second line 7
+        and the final line 6 read their conditionals off a carried estimand),
+      * a mediator  X -> M -> Y1  in a district of its own (line 4 first, then 7),
+      * an irrelevant node (child of the last outcome, or isolated), extra forward edges inside the outcome block,
+
+    then relabelled at random (labels drive every sort in the DSL).  Returns (g, X, Y, kind)."""
+    m = rng.choice([2, 2, 2, 3, 3, 1])
+    outer = rng.random() < 0.45
+    mediator = rng.random() < 0.3
+    extra = rng.random() < 0.3
+    if outer and nmax < 6:
+        outer = False
+    if outer:
+        m = max(1, min(m, nmax - 5))
+
+    def size():
+        return 3 + m + (2 if outer else 0) + (1 if mediator else 0) + (1 if extra else 0)
+
+    while size() > nmax:
+        if extra:
+            extra = False
+        elif mediator:
+            mediator = False
+        elif m > 2:
+            m -= 1
+        elif outer:
+            outer = False
+        else:
+            break
+    names = []
+
+    def new(tag):
+        names.append(tag)
+        return len(names) - 1
+
+    di, bi = [], []
+    if outer:
+        w0, r0 = new("W0"), new("R0")
+    w, r, x = new("W"), new("R"), new("X")
+    di += [[w, r], [r, x]]
+    bi += [[w, x]]
+    if outer:
+        di += [[w0, r0], [r0, w]]
+        bi += [[w0, w], [w0, r]]
+    med = new("M") if mediator else None
+    ys = [new("Y%d" % i) for i in range(m)]
+    if mediator:
+        di += [[x, med], [med, ys[0]]]
+        if rng.random() < 0.4:
+            di.append([x, ys[0]])
+    else:
+        di.append([x, ys[0]])
+    for a, b in zip(ys, ys[1:]):
+        di.append([a, b])
+        bi.append([a, b])
+    if m >= 3 and rng.random() < 0.5:
+        di.append([ys[0], ys[2]])
+    if m >= 3 and rng.random() < 0.3:
+        bi.append([ys[0], ys[2]])
+    if m >= 2 and rng.random() < 0.25:
+        di.append([x, ys[rng.randrange(1, m)]])
+    j = rng.randrange(m)
+    bi.append([w, ys[j]])
+    if m >= 2 and rng.random() < 0.25:
+        bi.append([w, ys[(j + 1) % m]])
+    kind = "napkin%d" % m + ("+outer" if outer else "") + ("+med" if mediator else "")
+    if extra:
+        q = new("Q")
+        t = rng.random()
+        if t < 0.4:
+            di.append([ys[-1], q])
+        elif t < 0.7:
+            pass                      # isolated
+        else:
+            di.append([q, ys[-1]])    # an extra observed parent of the last outcome
+            kind += "+par"
+    n = len(names)
+    # query
+    X = [x]
+    t = rng.random()
+    if t < 0.15:
+        X.append(r)
+    elif t < 0.25:
+        X.append(w)
+    t = rng.random()
+    if t < 0.45:
+        Y = [ys[-1]]
+    elif t < 0.8:
+        Y = list(ys)
+    else:
+        Y = sorted(rng.sample(ys, rng.randint(1, m)))
+    perm = list(range(n))
+    rng.shuffle(perm)
+    dil = [[perm[a], perm[b]] for a, b in di]
+    bil = [[perm[a], perm[b]] if rng.random() < 0.5 else [perm[b], perm[a]] for a, b in bi]
+    rng.shuffle(dil)
+    rng.shuffle(bil)
+    nodes = list(range(n))
+    rng.shuffle(nodes)
+    return {"nodes": nodes, "di": dil, "bi": bil}, sorted(perm[v] for v in X), sorted(perm[v] for v in Y), kind
+
+
+def collider_family(rng: random.Random, nmax=6):
+    """structured generator for IDC's rule-2 test with SEVERAL conditions of which one is an opened collider (or a
+    descendant of one) between the tested condition and the outcome, and not an ancestor of either:
+
+        Z1 (<-> | <-A-> | <-A<->) T (<- | <-> | <-B->) Y,     T = Z2  or  T -> Z2,      query  P(Y | do(X), Z1, Z2)
+
+    The edge at Z1 never leaves Z1 (the test removes those), so given Z2 the pair stays connected and the exchange of Z1
+    must be refused; optional treatment X (parent of Y, Z1 or T), optional direct effect Z1 -> Y, optional third
+    condition, random relabelling.  Returns (g, X, Y, Z, kind)."""
+    names = []
+
+    def new(tag):
+        names.append(tag)
+        return len(names) - 1
+
+    budget = nmax - 3
+    left = rng.choice(["bi", "bi", "fork", "latfork"])
+    right = rng.choice(["di", "di", "bi", "fork"])
+    via_c = rng.random() < 0.35
+    has_x = rng.random() < 0.6
+    third = rng.random() < 0.25
+    # spend the node budget in this order of preference
+    need = lambda: (left != "bi") + (right == "fork") + via_c + has_x + third  # noqa: E731
+    while need() > budget:
+        if third:
+            third = False
+        elif right == "fork":
+            right = "di"
+        elif left != "bi":
+            left = "bi"
+        elif via_c:
+            via_c = False
+        else:
+            has_x = False
+    a = new("A") if left != "bi" else None
+    b = new("B") if right == "fork" else None
+    x = new("X") if has_x else None
+    z1, y = new("Z1"), new("Y")
+    c = new("C") if via_c else None
+    z2 = new("Z2")
+    z3 = new("Z3") if third else None
+    t = c if via_c else z2
+    di, bi = [], []
+    if via_c:
+        di.append([c, z2])
+    if left == "bi":
+        bi.append([z1, t])
+    elif left == "fork":
+        di += [[a, z1], [a, t]]
+    else:
+        di.append([a, z1])
+        bi.append([a, t])
+    if right == "di":
+        di.append([y, t])
+    elif right == "bi":
+        bi.append([y, t])
+    else:
+        di += [[b, y], [b, t]]
+    if has_x:
+        tx = rng.choice([y, y, z1, t])
+        di.append([x, tx])
+        if rng.random() < 0.3:
+            bi.append([x, rng.choice([v for v in (y, z1) if v != tx] or [z2])])
+    if rng.random() < 0.35:
+        di.append([z1, y])
+    if third:
+        r = rng.random()
+        if r < 0.4:
+            di.append([z3, y])
+        elif r < 0.7:
+            di.append([z2, z3])
+        else:
+            bi.append([z3, z1])
+    n = len(names)
+    X = [x] if has_x and rng.random() < 0.75 else []
+    Y = [y]
+    Z = [z1, z2] + ([z3] if third else [])
+    kind = "collider:%s-%s%s%s" % (left, right, "+desc" if via_c else "", "+x" if X else "")
+    perm = list(range(n))
+    rng.shuffle(perm)
+    dil = [[perm[u], perm[v]] for u, v in di]
+    bil = [[perm[u], perm[v]] if rng.random() < 0.5 else [perm[v], perm[u]] for u, v in bi]
+    rng.shuffle(dil)
+    rng.shuffle(bil)
+    nodes = list(range(n))
+    rng.shuffle(nodes)
+    return ({"nodes": nodes, "di": dil, "bi": bil}, sorted(perm[v] for v in X), sorted(perm[v] for v in Y),
+            sorted(perm[v] for v in Z), kind)
 
 
 def gen_graph(rng, nmin=2, nmax=7):
